@@ -339,3 +339,72 @@ package types
 //@   loop 1 invariant seen:  forall a int :: 0 <= a && a < i ==> $seen(1, items[a].Hostname)
 //@   loop 1 invariant uniq:  forall a int, b int :: 0 <= a && a < b && b < i ==> items[a].Hostname != items[b].Hostname
 //@ end
+
+// ---------------------------------------------------------------------------
+// C05 / C07 — bookkeeping of the hosts collection
+
+// hosts changed iff something was added or removed since the last commit
+//@ func (*Hosts).Changed
+//@   props C05
+//@   modifies nothing
+//@   ensures def: result == (len(h.itemsAdd) > 0 || len(h.itemsDel) > 0)
+//@ end
+
+// the ssl-passthrough counter follows the hosts that have the flag
+//@ func (*Hosts).releaseHost
+//@   props C07
+//@   requires host != nil
+//@   modifies h.sslPassthroughCount
+//@   ensures count: h.sslPassthroughCount == old(h.sslPassthroughCount) - (host.sslPassthrough ? 1 : 0)
+//@ end
+
+// C03 / C04 — only `begin` paths are matched case-insensitively (the template
+// lower-cases the sample for begin maps only): the key of every other match
+// type keeps the declared path, and the key is built from the stored path
+//@ func (*HostsMap).addTarget
+//@   props C04 C03
+//@   at call buildMapKey#1 assert key: $arg0 == match && $arg1 == lower(old(hostname)) && $arg2 == (match == MatchBegin ? lower(old(path)) : old(path))
+//@   lemma entry: entry.hostname == lower(old(hostname)) && entry.path == (match == MatchBegin ? lower(old(path)) : old(path)) && entry.match == match && entry.Value == target && entry.order == order
+//@ end
+
+// ---------------------------------------------------------------------------
+// C05 / C11 — Shrink drops a backend from the change tracking when the re-added
+// one matches what HAProxy already runs.  The model then keeps the *old* object
+// (with the server slots HAProxy has), and the shards to rewrite are recomputed
+// from everything still tracked, removals included.
+
+// trusted frame: a comparison; it writes to a map and a copy of its own only
+//@ func backendsMatch
+//@   trusted
+//@   modifies nothing
+//@ end
+
+//@ spec func backendsWF(b *Backends) bool = b != nil && b.items != nil && b.itemsAdd != nil && b.itemsDel != nil && b.changedShards != nil
+//@     && (forall n string :: in(n, b.itemsDel) ==> b.itemsDel[n] != nil) && (forall n string :: in(n, b.itemsAdd) ==> b.itemsAdd[n] != nil)
+//@     && b.items != b.itemsAdd && b.items != b.itemsDel && b.itemsAdd != b.itemsDel
+//@     && (forall i int :: 0 <= i && i < len(b.shards) ==> b.shards[i] != b.items && b.shards[i] != b.itemsAdd && b.shards[i] != b.itemsDel)
+//@ spec func shardFlagged(b *Backends, k *Backend) bool = in(k.shard, b.changedShards) && b.changedShards[k.shard]
+
+//@ func (*Backends).BackendChanged
+//@   props C05
+//@   modifies b.changedShards[*]
+//@   ensures flagged: shardFlagged(b, backend)
+//@   ensures others:  forall k int :: old(in(k, b.changedShards) && b.changedShards[k]) ==> in(k, b.changedShards) && b.changedShards[k]
+//@ end
+
+//@ func (*Backends).Shrink
+//@   props C05 C11
+//@   requires wf: backendsWF(b)
+//@   ensures keeps-old:  forall n string :: old(in(n, b.itemsDel)) && !in(n, b.itemsDel) ==> in(n, b.items) && b.items[n] == old(b.itemsDel[n]) && !in(n, b.itemsAdd)
+//@   ensures flags-del:  (exists n string :: old(in(n, b.itemsDel)) && !in(n, b.itemsDel)) ==> forall n string :: in(n, b.itemsDel) ==> shardFlagged(b, b.itemsDel[n])
+//@   ensures flags-add:  (exists n string :: old(in(n, b.itemsDel)) && !in(n, b.itemsDel)) ==> forall n string :: in(n, b.itemsAdd) ==> shardFlagged(b, b.itemsAdd[n])
+//@   loop 1 invariant maps:  b.items == old(b.items) && b.itemsAdd == old(b.itemsAdd) && b.itemsDel == old(b.itemsDel) && b.changedShards == old(b.changedShards) && b.shards == old(b.shards) && backendsWF(b)
+//@   loop 1 invariant sub:   forall n string :: in(n, b.itemsDel) ==> old(in(n, b.itemsDel)) && b.itemsDel[n] == old(b.itemsDel[n])
+//@   loop 1 invariant keeps: forall n string :: old(in(n, b.itemsDel)) && !in(n, b.itemsDel) ==> in(n, b.items) && b.items[n] == old(b.itemsDel[n]) && !in(n, b.itemsAdd)
+//@   loop 1 invariant flag:  !changed ==> forall n string :: old(in(n, b.itemsDel)) ==> in(n, b.itemsDel)
+//@   loop 2 invariant maps:  b.changedShards != nil && b.itemsAdd == old(b.itemsAdd) && b.itemsDel == old(b.itemsDel) && backendsWF(b)
+//@   loop 2 invariant adds:  forall n string :: $seen(2, n) && in(n, b.itemsAdd) ==> shardFlagged(b, b.itemsAdd[n])
+//@   loop 3 invariant maps:  b.changedShards != nil && b.itemsAdd == old(b.itemsAdd) && b.itemsDel == old(b.itemsDel) && backendsWF(b)
+//@   loop 3 invariant adds:  forall n string :: in(n, b.itemsAdd) ==> shardFlagged(b, b.itemsAdd[n])
+//@   loop 3 invariant dels:  forall n string :: $seen(3, n) && in(n, b.itemsDel) ==> shardFlagged(b, b.itemsDel[n])
+//@ end
